@@ -256,4 +256,52 @@ def addSignedMul (W : Nat) : Nat → MulKernel
     else
       splitLoop W b.length (addSignedMulFrontier W) (addSignedMul W fuel) a.length c neg a b 0
 
+-- ---------------------------------------------------------------- squaring (sqr/simple.rs, sqr/mod.rs)
+
+/-- `MAX_LEN_SIMPLE` in integer/src/sqr/mod.rs (not among the regenerated constants yet) -/
+def sqrMaxLenSimple : Nat := 30
+
+/-- first loop of `sqr::simple::square` (triangular part).  `s` is the suffix `b[2i..]` of the output,
+    `m :: aRest = a[i..]`, `c0` the pending carry bit for `s[a_cur.len()]`.  In suffix coordinates
+    `offset = 1`: `carry = add_mul_word_same_len_in_place(&mut b[offset..offset + l], m, a_cur)`, then
+    `b[offset + l] += carry + c0` (`add_with_carry`), and the next row starts two words further. -/
+def sqrTriLoop (W : Nat) : List Nat → List Nat → Nat → List Nat × Nat
+  | s, [], c0 => (s, c0)
+  | s, m :: aRest, c0 =>
+    let l := aRest.length
+    let (win, cw) := addMulWordSameLen W (window s 1 (1 + l)) m aRest
+    let s := setWindow s 1 win
+    let t := s.getD (1 + l) 0 + cw + c0
+    let s := setWindow s (1 + l) [t % 2 ^ W]
+    let (r, c0') := sqrTriLoop W (s.drop 2) aRest (t / 2 ^ W)
+    (s.take 2 ++ r, c0')
+
+/-- second loop of `sqr::simple::square` (diagonal part, fused with the doubling):
+    `new [b0, b1] = m² + 2·[b0, b1] + c1 + c2` with the two overflow bits of the two
+    `overflowing_add`s carried to the next pair -/
+def sqrDiagLoop (W : Nat) : List Nat → List Nat → Nat → Nat → List Nat × (Nat × Nat)
+  | b0 :: b1 :: rest, m :: as, c1, c2 =>
+    let s := m * m + b0 + b0                       -- mul_add_2carry(m, m, b0, b0)
+    let wb1 := b1 * 2 ^ W                           -- double_word(0, b1)
+    let s1 := s + (wb1 + c1)
+    let s2 := s1 % 2 ^ (2 * W) + (wb1 + c2)
+    let o := s2 % 2 ^ (2 * W)
+    let (r, cc) := sqrDiagLoop W rest as (s1 / 2 ^ (2 * W)) (s2 / 2 ^ (2 * W))
+    (o % 2 ^ W :: o / 2 ^ W :: r, cc)
+  | bs, _, c1, c2 => (bs, (c1, c2))
+
+/-- `sqr::simple::square(b, a)` on a zero-filled `b` of `2·a.len()` words -/
+def sqrSimple (W : Nat) (a : List Nat) : List Nat :=
+  let b := List.replicate (2 * a.length) 0
+  let (b, c0) := sqrTriLoop W b a 0
+  let (b, cc) := sqrDiagLoop W b a 0 0
+  -- *b.last_mut().unwrap() += c0 + c1 + c2
+  b.dropLast ++ [b.getLastD 0 + c0 + cc.1 + cc.2]
+
+/-- `sqr::sqr(b, a)` on a zero-filled `b`: `simple::square` up to `MAX_LEN_SIMPLE` words, otherwise
+    `mul::add_signed_mul_same_len(b, Positive, a, a)` (carry asserted zero) -/
+def sqrBuffer (W : Nat) (a : List Nat) : List Nat :=
+  if a.length ≤ sqrMaxLenSimple then sqrSimple W a
+  else (addSignedMulSameLen W a.length (List.replicate (2 * a.length) 0) false a a).1
+
 end Dashu.Model
